@@ -158,16 +158,16 @@ func c16CheckCalls(rec *c16rec, ref *c16ref, A int) {
 // c16Expected is the reference partition computed by an ordinary (forking) walk:
 // every decision of RFC 4271 §4.3 / RFC 7606 §3-5 is a branch, so offsets are plain sums.
 type c16exp struct {
-	aborted  bool
-	calls    []c16call
-	abortMP  bool
-	overrun  bool
-	bounded  bool
-	seen1    bool
-	seen2    bool
-	seen14   bool
-	nlriLen  int
-	typs     []uint8
+	aborted bool
+	calls   []c16call
+	abortMP bool
+	overrun bool
+	bounded bool
+	seen1   bool
+	seen2   bool
+	seen14  bool
+	nlriLen int
+	typs    []uint8
 }
 
 func c16Expected(b []byte, A int) c16exp {
